@@ -24,6 +24,7 @@ type targetPanic struct{ v Value }
 type WorkItem struct {
 	Vec    []int
 	Verify bool // last decision has not been checked for feasibility
+	Hints  map[int]int64
 }
 
 type TapeEntry struct {
@@ -102,6 +103,7 @@ type Machine struct {
 
 	depthMark int
 	lits      map[*sym.Term]bool
+	hints     map[int]int64
 }
 
 type frozenSnap struct {
@@ -197,11 +199,22 @@ func (m *Machine) Branch(c *sym.Term) bool {
 	alt := make([]int, len(m.Vec)+1)
 	copy(alt, m.Vec)
 	alt[len(m.Vec)] = 1
-	m.NewWork = append(m.NewWork, WorkItem{alt, true})
+	m.NewWork = append(m.NewWork, WorkItem{alt, true, m.copyHints()})
 	m.Vec = append(m.Vec, 0)
 	m.pos++
 	m.addPC(c)
 	return true
+}
+
+func (m *Machine) copyHints() map[int]int64 {
+	if len(m.hints) == 0 {
+		return nil
+	}
+	c := make(map[int]int64, len(m.hints))
+	for k, v := range m.hints {
+		c[k] = v
+	}
+	return c
 }
 
 // Choose is a pure nondeterministic choice among n alternatives.
@@ -221,25 +234,41 @@ func (m *Machine) Choose(n int) int {
 		alt := make([]int, len(m.Vec)+1)
 		copy(alt, m.Vec)
 		alt[len(m.Vec)] = i
-		m.NewWork = append(m.NewWork, WorkItem{alt, false})
+		m.NewWork = append(m.NewWork, WorkItem{alt, false, m.copyHints()})
 	}
 	m.Vec = append(m.Vec, 0)
 	m.pos++
 	return 0
 }
 
-// Concretize turns an integer term into a concrete value by enumerating models.
+// Concretize turns an integer term into a concrete value: candidates come from the solver's models and each
+// candidate is a Branch(t == v), so every feasible value (up to 40 per site) is explored on some path. The
+// candidate used at a decision position is recorded as a hint so that re-execution is deterministic.
 func (m *Machine) Concretize(t *sym.Term, what string) int64 {
 	if t.IsConst() {
 		return t.SVal()
 	}
 	for i := 0; i < 40; i++ {
 		var v uint64
-		if m.pos < len(m.Vec) {
-			// replay: we need the same candidate; recompute it from the solver deterministically is
-			// not possible, so candidates are drawn in increasing order from a fixed small set.
+		if h, ok := m.hints[m.pos]; ok {
+			v = uint64(h)
+		} else {
+			if m.pos < len(m.Vec) {
+				m.end("unsupported", "missing concretization hint (non-deterministic re-execution)")
+			}
+			if m.Z.Check(m.S, nil, nil) != sym.Sat {
+				m.end("infeasible", "concretize: path condition not satisfiable")
+			}
+			vals, ok := m.Z.Eval(m.S, []*sym.Term{t})
+			if !ok {
+				m.end("unsupported", "concretize: model evaluation failed")
+			}
+			v = vals[0]
+			if m.hints == nil {
+				m.hints = map[int]int64{}
+			}
+			m.hints[m.pos] = int64(v)
 		}
-		v = uint64(int64(i)) // candidates 0,1,2,... (small-scope)
 		c := m.S.Eq(t, m.S.Const(t.W, v))
 		if m.Branch(c) {
 			return sym.SignExt(v, t.W)
